@@ -294,6 +294,9 @@ class AnnotationDAGBuilder:
             if inspect.iscoroutinefunction(get_callable_run_method(node)):
                 continue
 
+            if NodeTag.non_async in node.tags:
+                continue
+
             if NodeTag.process in node.tags:
                 is_process_pool_needed = True
             else:
